@@ -38,6 +38,19 @@ def program(c):
         return ("mod m {\n  " + pub(c["pubN"]) + "mod n {\n    " + pub(c["pubB"]) + "mod h {\n      " + pub(c["pubNA"])
                 + "fn c(){ 3 }\n    }\n    pub fn unused2(){ 0 }\n  }\n  " + pub(c["reexpPub"])
                 + "use n::h::c\n  pub fn unused(){ 0 }\n}\nfn dsp(){\n  m::c()\n}\n")
+    if form in ("deepq", "deepuse", "deepwild", "deepsib", "deeproot"):
+        tree = ("  " + pub(c["pubN"]) + "mod n {\n    " + pub(c["pubB"]) + "mod h {\n      " + pub(c["pubNA"])
+                + "fn c(){ 3 }\n      pub fn unused3(){ 0 }\n    }\n    pub fn unused2(){ 0 }\n  }\n")
+        if form == "deepq":
+            return "mod m {\n" + tree + "  pub fn im(){ n::h::c() }\n}\nfn dsp(){\n  m::im()\n}\n"
+        if form == "deepuse":
+            return "mod m {\n" + tree + "  use n::h::c\n  pub fn im(){ c() }\n}\nfn dsp(){\n  m::im()\n}\n"
+        if form == "deepwild":
+            # (a wildcard import names its module from the root)
+            return "mod m {\n" + tree + "  use m::n::h::*\n  pub fn im(){ c() }\n}\nfn dsp(){\n  m::im()\n}\n"
+        if form == "deepsib":
+            return ("mod m {\n" + tree + "  pub mod s {\n    pub fn via(){ m::n::h::c() }\n  }\n}\nfn dsp(){\n  m::s::via()\n}\n")
+        return "mod m {\n" + tree + "  pub fn unused(){ 0 }\n}\nfn dsp(){\n  m::n::h::c()\n}\n"
     # the reference expression and the `use` lines it needs, relative to where it is written
     uses, ref = [], ""
     if form == "qual":
